@@ -2,7 +2,7 @@
    The theorems quantify over ALL interleavings of the modelled atomic actions on the module-level
    state (per-thread build guard and tracking switch, the global sequence counter, the shared
    caches).  Atomicity of each action under the GIL is the assumption. *)
-From Fiddle Require Import Threads Threads_proofs Anchors.
+From Fiddle Require Import Threads Threads_proofs.
 From Coq Require Import List Sorted.
 Import ListNotations.
 
